@@ -351,11 +351,11 @@ class TraceSet(object):
             if 'xmin' in kwargs:
                 self.xmin = np.float64(kwargs['xmin'])
             else:
-                self.xmin = xpos.min()
+                self.xmin = np.float64(xpos.min())
             if 'xmax' in kwargs:
                 self.xmax = np.float64(kwargs['xmax'])
             else:
-                self.xmax = xpos.max()
+                self.xmax = np.float64(xpos.max())
             if 'maxiter' in kwargs:
                 maxiter = int(kwargs['maxiter'])
             else:
